@@ -1,1 +1,55 @@
-From BW Require Import SpecKeys.
+(* C10 - Every diagnostic points at the text it is about.
+   Property theorems only; proofs are in coq/proofs. *)
+From BW Require Import SpecKeys SpecBlocks.
+From BWP Require Import TextFacts Pos_proofs Comment_proofs Keys_proofs Range_proofs.
+
+(* Tag ranges: the position computed for the tag's '<' (and, at offset hi-1, its
+   '>') is the position reached by walking that many bytes of the comment from
+   the comment's start - on any line of a multi-line comment ... *)
+Theorem C10_tag_position_exact : forall c p pre ch post,
+  c_text c = pre ++ ch :: post -> blen pre = p -> u8len ch = 1 -> ch <> 10 ->
+  source_position_at c p = Ok (advance (c_text c) p (c_ps c)).
+Proof. exact source_position_at_exact. Qed.
+Print Assumptions C10_tag_position_exact.
+
+(* ... and walking the normalised text equals walking the raw source text. *)
+Theorem C10_normalised_positions : forall k s t n p0,
+  normalise k s = Ok (Some t) ->
+  (exists pre post, s = pre ++ post /\ blen pre = n) ->
+  (exists pre post, t = pre ++ post /\ blen pre = n) ->
+  advance t n p0 = advance s n p0.
+Proof. exact normalised_positions. Qed.
+Print Assumptions C10_normalised_positions.
+
+(* Tag-range rules report exactly (b_ts, b_te). *)
+Theorem C10_tag_diag_range : forall b code sev data,
+  let d := tag_diag b code sev data in
+  (d_sl d, d_sc d) = b_ts b /\ (d_el d, d_ec d) = b_te b.
+Proof. intros b code sev data. unfold tag_diag. cbn [d_sl d_sc d_el d_ec]. destruct (b_ts b), (b_te b). cbn [fst snd]. split; reflexivity. Qed.
+Print Assumptions C10_tag_diag_range.
+
+(* Key ranges: for a block whose content is the slice [|pre|, |pre|+|content|) of
+   the file and starts at the file position of that offset, the range reported
+   for any trimmed-line key delimits exactly the key text in the file ... *)
+Theorem C10_key_range_exact : forall pre content post k b code sev data,
+  let file := pre ++ content ++ post in
+  b_clo b = blen pre -> b_chi b = blen pre + blen content ->
+  b_cs b = pos_of_offset file (blen pre) ->
+  In k (keys_trim 0 (lines content)) ->
+  let d := key_diag b k code sev data in
+  text_at file (d_sl d) (d_sc d) (d_ec d) = Some (k_val k).
+Proof. exact key_range_exact. Qed.
+Print Assumptions C10_key_range_exact.
+
+(* ... and so does the range of any key given by a byte slice of its content
+   line (regex keys in the middle of a line, after multi-byte text). *)
+Theorem C10_key_range_exact_gen : forall pre content post k b code sev data l,
+  let file := pre ++ content ++ post in
+  b_clo b = blen pre -> b_chi b = blen pre + blen content ->
+  b_cs b = pos_of_offset file (blen pre) ->
+  nth_error (lines content) (N.to_nat (k_idx k)) = Some l ->
+  1 <= k_a k -> bslice l (k_a k - 1) (k_b k) = Some (k_val k) ->
+  let d := key_diag b k code sev data in
+  text_at file (d_sl d) (d_sc d) (d_ec d) = Some (k_val k).
+Proof. exact key_range_exact_gen. Qed.
+Print Assumptions C10_key_range_exact_gen.
